@@ -216,7 +216,7 @@ def generic_check(prop, tier, seed, plan=None, binaries=None, extra_args=None, s
             env["UBSAN_OPTIONS"] = re.sub(r":log_path=[^:]*", "", env["UBSAN_OPTIONS"])
         # watchdog: a shard that exceeds its (generous) wall-clock budget is killed; the recipe it was executing is then
         # replayed under a per-case limit - only a reproducible hang of that single case is reported
-        budget = plan.get("shard_timeout", 600 if tier == "quick" else 14400)
+        budget = plan.get("shard_timeout", 1200 if tier == "quick" else 14400)
         try:
             r = subprocess.run(j["cmd"], stdout=subprocess.PIPE, stderr=subprocess.PIPE, env=env, timeout=budget)
             j["rc"] = r.returncode
